@@ -88,11 +88,18 @@ Qed.
 
 (* ---------- the DAG ---------- *)
 Definition children (n:node) : list nat :=
-  match n with NDet ds => ds | NMux ix os => ix :: os | _ => [] end.
+  match n with NDet es ds => es ++ ds | NMux ix os => ix :: os | _ => [] end.
 
 (* dependencies come first: the exporter numbers nodes in post-order *)
-Definition wf_dag (g:dag) : Prop :=
+Definition dag_ordered (g:dag) : Prop :=
   forall i n, nth_error g i = Some n -> forall d, In d (children n) -> (d < i)%nat.
+
+(* encoder and decoder walk the same dependency list at every deterministic node: both follow the
+   conditioned proxy (or neither does).  Checked on every exported DAG; what seeded/C18-3 broke. *)
+Definition conditioned_consistent (g:dag) : Prop :=
+  forall i es ds, nth_error g i = Some (NDet es ds) -> es = ds.
+
+Definition wf_dag (g:dag) : Prop := dag_ordered g /\ conditioned_consistent g.
 
 Lemma mem_cons i x l : mem i (x :: l) = Nat.eqb i x || mem i l.
 Proof. reflexivity. Qed.
@@ -220,7 +227,7 @@ Lemma dec_node_S fuel i sn pe s :
   else
     match nth_error g i with
     | Some (NPrim t) => dop v, r <- read_value t s; OK (i :: sn, (i, v) :: pe, r)
-    | Some (NDet ds) =>
+    | Some (NDet _ ds) =>
         do st' <- fold_left (fdec fuel) ds (OK (sn, pe, s));
         let '(sn', pe', s') := st' in OK (i :: sn', pe', s')
     | Some (NMux ix os) =>
@@ -264,7 +271,7 @@ Proof.
   assert (Hstep : forall s, dec_node g (S fuel) i (snd, pe, s) =
     match nth_error g i with
     | Some (NPrim t) => dop v, r <- read_value t s; OK (i :: snd, (i, v) :: pe, r)
-    | Some (NDet ds) =>
+    | Some (NDet _ ds) =>
         do st' <- fold_left (fdec fuel) ds (OK (snd, pe, s));
         let '(sn', pe', s') := st' in OK (i :: sn', pe', s')
     | Some (NMux ix os) =>
@@ -283,7 +290,7 @@ Proof.
     | _ => Err EUnsupported
     end).
   { intros s. rewrite dec_node_S, Hns, Hd. reflexivity. }
-  destruct (nth_error g i) as [[|t|ds|ix os]|] eqn:Hnode; try discriminate.
+  destruct (nth_error g i) as [[|t|ds ds'|ix os]|] eqn:Hnode; try discriminate.
   - (* primitive *)
     destruct (write_value t (pval i)) as [bv|] eqn:Hw; [|discriminate]. inversion H; subst. clear H.
     repeat split.
@@ -296,9 +303,10 @@ Proof.
       * intros j v. cbn [plook]. destruct (Nat.eqb_spec j i) as [->|Hne]; [intros Hv; now inversion Hv|]. apply Hagree.
     + intros p Hp. destruct (read_value_truncated _ _ _ _ Hw Hp) as [e He]. rewrite Hstep, He. exists e. reflexivity.
     + intros _. rewrite mem_cons, Nat.eqb_refl. reflexivity.
-  - (* deterministic *)
+  - (* deterministic: encoder and decoder walk the same list (conditioned_consistent) *)
+    assert (ds = ds') by (eapply (proj2 Hwf); exact Hnode). subst ds'.
     change (fold_left (fenc fuel) ds (Some ([], i :: sn)) = Some (b, sn')) in H.
-    assert (Hlt : forall d, In d ds -> (d < i)%nat) by (intros d Hin; eapply Hwf; [exact Hnode|exact Hin]).
+    assert (Hlt : forall d, In d ds -> (d < i)%nat) by (intros d Hin; eapply (proj1 Hwf); [exact Hnode|cbn [children]; apply in_or_app; left; exact Hin]).
     destruct (fold_ok fuel IH ds i Hlt _ _ _ _ H) as [b1 [Hb Hrest]]. cbn [app] in Hb. subst b1.
     assert (HI0 : Inv (i :: P) (i :: sn) snd pe).
     { repeat split; try assumption. intros x. rewrite !mem_cons, Hmem.
@@ -322,8 +330,8 @@ Proof.
     destruct (nth_error os j) as [c|] eqn:Hc; [|discriminate].
     destruct (enc_node g pval fuel c s1) as [[b2 s2]|] eqn:E2; [|discriminate].
     inversion H; subst. clear H.
-    assert (Hix : (ix < i)%nat) by (eapply Hwf; [exact Hnode|now left]).
-    assert (Hci : (c < i)%nat) by (eapply Hwf; [exact Hnode|right; eapply nth_error_In; exact Hc]).
+    assert (Hix : (ix < i)%nat) by (eapply (proj1 Hwf); [exact Hnode|now left]).
+    assert (Hci : (c < i)%nat) by (eapply (proj1 Hwf); [exact Hnode|right; eapply nth_error_In; exact Hc]).
     assert (HI0 : Inv (i :: P) (i :: sn) snd pe).
     { repeat split; try assumption. intros x. rewrite !mem_cons, Hmem.
       destruct (Nat.eqb x i), (mem x snd), (mem x P); reflexivity. }
@@ -433,6 +441,52 @@ Proof.
 Qed.
 
 End RoundTrip.
+
+(* the hypotheses of the round trip, separately *)
+Theorem conditioned_roundtrip g pval : dag_ordered g -> conditioned_consistent g -> forall deps bs rest,
+  enc_sample g pval deps = Some bs ->
+  exists pe, dec_sample g deps (bs ++ rest) = OK (pe, rest) /\ forall j v, plook j pe = Some v -> v = pval j.
+Proof. intros Ho Hc. exact (sample_roundtrip g pval (conj Ho Hc)). Qed.
+
+(* ---------- conditioning ---------- *)
+(* encoder and decoder agreeing on whether to follow the conditioned proxy is enough, whatever was conditioned to what *)
+Lemma view_consistent b cg : conditioned_consistent (map (view b b) cg).
+Proof.
+  intros i es ds H. rewrite nth_error_map in H. destruct (nth_error cg i) as [c|]; [|discriminate].
+  cbn [option_map] in H. unfold view in H. destruct (c_own c); try discriminate. inversion H. reflexivity.
+Qed.
+
+Theorem code_view_roundtrip cg pval : dag_ordered (map code_view cg) -> forall deps bs rest,
+  enc_sample (map code_view cg) pval deps = Some bs ->
+  exists pe, dec_sample (map code_view cg) deps (bs ++ rest) = OK (pe, rest) /\ forall j v, plook j pe = Some v -> v = pval j.
+Proof. intros Ho. exact (conditioned_roundtrip _ pval Ho (view_consistent true cg)). Qed.
+
+Theorem code_view_truncated cg pval : dag_ordered (map code_view cg) -> forall deps bs p,
+  enc_sample (map code_view cg) pval deps = Some bs -> strict_prefix p bs -> exists e, dec_sample (map code_view cg) deps p = Err e.
+Proof. intros Ho. exact (sample_truncated _ pval (conj Ho (view_consistent true cg))). Qed.
+
+(* ... and it is needed: an object depending on a random value, conditioned to a fixed one (proxy without
+   dependencies), followed by another random value.  Encoder following the proxy, decoder not (seeded/C18-3):
+   the decoder reads the second value as the object's dependency and then runs out of data; with a third
+   value it silently assigns every value to the wrong node. *)
+Definition ci_cg : list cnode :=
+  [ {| c_own := NPrim TInt; c_proxy := None |}; {| c_own := NDet [0%nat] [0%nat]; c_proxy := None |};
+    {| c_own := NPrim TInt; c_proxy := None |} ].
+Definition ci_pv (i:nat) : val := match i with 0%nat => VInt 5 | _ => VInt 9 end.
+Theorem conditioned_inconsistent_refuted :
+  let cg := condition_to 1 [] ci_cg in
+  dag_ordered (map (view true false) cg) /\
+  enc_sample (map (view true false) cg) ci_pv [1%nat; 2%nat] = Some [9] /\
+  dec_sample (map (view true false) cg) [1%nat; 2%nat] [9] = Err ETrunc /\
+  dec_sample (map code_view cg) [1%nat; 2%nat] [9] = OK ([(2%nat, VInt 9)], []) /\
+  (exists pe, dec_sample (map (view true false) cg) [1%nat; 2%nat] [9; 9] = OK (pe, []) /\ plook 0%nat pe = Some (VInt 9) /\ ci_pv 0%nat = VInt 5).
+Proof.
+  cbv zeta. split.
+  - intros i n H d Hd. vm_compute in H.
+    do 3 (destruct i as [|i]; [inversion H; subst; cbn in Hd; intuition lia|]).
+    destruct i; discriminate.
+  - vm_compute. repeat split; try reflexivity. eexists. repeat split; reflexivity.
+Qed.
 
 (* ---------- header ---------- *)
 Lemma bytes_eqb_eq a b : bytes_eqb a b = true -> a = b.
